@@ -30,7 +30,7 @@ for f in sorted(os.listdir(os.path.join(VERIF, "benign"))):
         anchors = []
         for pid in claimed:
             c = subprocess.run(["./check", pid], cwd=VERIF, capture_output=True, text=True)
-            if c.returncode == 2 and "anchor name(s)" in c.stdout and "rename" in f:
+            if c.returncode == 2 and "anchor name(s)" in c.stdout:
                 anchors.append(pid)      # a rename of an identifier listed in an anchor table: exit 2 by contract, never an alarm
             elif c.returncode != 0:
                 res[pid] = (c.returncode, [l for l in c.stdout.splitlines() if l.startswith("  R") or "BROKEN" in l][:2])
